@@ -127,6 +127,8 @@ type Program struct {
 	Decls   []Decl `json:"decls,omitempty"`
 	Facts   []Atom `json:"facts,omitempty"`
 	Rules   []Rule `json:"rules,omitempty"`
+	// FactsAfter: that many of the last facts are printed after the rules instead of before them.
+	FactsAfter int `json:"factsAfter,omitempty"`
 }
 
 // ---------------------------------------------------------------------------------------------
@@ -257,11 +259,18 @@ func (p Program) Source() string {
 	for _, d := range p.Decls {
 		sb.WriteString(d.Source() + "\n")
 	}
-	for _, f := range p.Facts {
+	before := len(p.Facts) - p.FactsAfter
+	if before < 0 {
+		before = 0
+	}
+	for _, f := range p.Facts[:before] {
 		sb.WriteString(f.Source() + ".\n")
 	}
 	for _, r := range p.Rules {
 		sb.WriteString(r.Source() + "\n")
+	}
+	for _, f := range p.Facts[before:] {
+		sb.WriteString(f.Source() + ".\n")
 	}
 	return sb.String()
 }
